@@ -84,8 +84,15 @@ UNIT = dict(
         dict(file=W, impl='Document', name='save_internal', props=['C01','C03','C19'], rules=dict(loops={1: dict(kind='idpairs', seq='self.objects.entries')}, pre_subst=[SIG], subst=[SKIP, CW0, TARGET, VERS])),
         dict(file=W, impl='IncrementalDocument', name='save_internal', props=['C03','C07','C19'], rules=dict(loops={1: dict(kind='idpairs', seq='self.new_document.objects.entries')}, pre_subst=[SIG], subst=[SKIP, CW0, TARGET, VERS2, dict(rule='R17', lit='target.bytes_written += prev_document_bytes.len();', to='target.bytes_written = counter_add(target.bytes_written, prev_document_bytes.len());', count=1, note='byte counter cannot overflow')])),
         dict(file='src/content.rs', impl=r're:^impl<Operations: AsRef<\[Operation\]>> Content<Operations> \{', emit_impl='impl Content', key_impl='Content', name='encode', props=['C14', 'C01'], rules=dict(
-            pre_subst=[dict(rule='R11', lit='self.operations.as_ref()', to='self.operations', count=1, note='AsRef<[Operation]> at Vec<Operation>')],
-            subst=[dict(rule='R5', lit='operation.operator.as_bytes()', to='string_as_bytes(&operation.operator)', count=1, note='String::as_bytes shim')])),
+            loops={2: dict(kind='pairs', seq='image.dict.entries')},
+            pre_subst=[dict(rule='R11', lit='self.operations.as_ref()', to='self.operations', count=1, note='AsRef<[Operation]> at Vec<Operation>'),
+                       dict(rule='R10', lit='for (key, value) in image.dict.iter() {', to='for (key, value) in image_dict {', count=1, note='IndexMap iteration = entry list (R8)')],
+            subst=[dict(rule='R5', lit='operation.operator.as_bytes()', to='string_as_bytes(&operation.operator)', count=1, note='String::as_bytes shim'),
+                   dict(rule='R5', lit='operation.operator == "BI"', to='string_is(&operation.operator, lit_4249())', count=1, note='String == &str shim'),
+                   dict(rule='R10', lit='if let [Object::Stream(image)] = operation.operands.as_slice() {', to='if let Some(image) = single_stream_operand(&operation.operands) {', count=1, note='slice pattern [Stream(x)] template'),
+                   dict(rule='R5', lit='key == lit_4c656e677468()', to='vec_is(key, lit_4c656e677468())', count=1, note='Vec<u8> == &[u8] shim'),
+                   dict(rule='R5', lit='key.clone()', to='clone_vec_u8(key)', count=1, note='Vec<u8>::clone shim'),
+            ])),
         dict(file=W, impl='Writer', name='write_binary_mark', props=['C01', 'C03', 'C19'], rules=dict(subst=[
             dict(rule='R10', lit='binary_mark.iter().all(|&byte| byte >= 128)', to='all_ge_128(binary_mark)', note='iter().all template'),
             dict(rule='R7', pat=r'Err\(std::io::Error::new\(\s*std::io::ErrorKind::InvalidData,\s*"Invalid binary mark",\s*\)\)', to='Err(IoError)', note='error payload dropped'),
